@@ -21,6 +21,15 @@ class Machinery(Exception):
     """exit code 2: the machinery failed; no statement about the property is made."""
 
 
+class DriverCrash(Machinery):
+    """a recorder process was killed by a fatal signal raised in native code"""
+
+    def __init__(self, driver, sig, stderr):
+        Machinery.__init__(self, "driver %s died with signal %d:\n%s" % (driver, sig, stderr))
+        self.driver, self.sig, self.stderr = driver, sig, stderr
+
+
+
 def b2l(b):
     """bytes -> list of ints (trace format)."""
     return list(bytes(b))
@@ -75,6 +84,10 @@ class Ctx:
         env["VERIF_TIER"] = self.tier
         p = subprocess.run(cmd, input=json.dumps(inp) if inp is not None else None, stdout=subprocess.PIPE,
                            stderr=subprocess.PIPE, text=True, timeout=timeout, env=env, cwd=VERIF)
+        if p.returncode in (-4, -6, -7, -8, -11):
+            # SIGILL / SIGABRT / SIGBUS / SIGFPE / SIGSEGV: the drivers are plain Python around the library, so the process died inside the
+            # library's native code (PYTHONFAULTHANDLER puts the Python stack of the fatal call on stderr)
+            raise DriverCrash(driver, -p.returncode, p.stderr[-3000:])
         if p.returncode != 0:
             raise Machinery("driver %s failed (rc=%d):\n%s" % (driver, p.returncode, p.stderr[-4000:]))
         try:
